@@ -337,3 +337,314 @@ Lemma relocation_total grid border : border <> [] ->
 Proof. rewrite relocated_grid_R. destruct border; [congruence|reflexivity]. Qed.
 Lemma relocation_empty_border grid : @relocated_grid_via_jit_from ROps grid [] = Raise OtherException.
 Proof. reflexivity. Qed.
+
+(* ================================================================= Part 2: BorderRelocator / mapper glue *)
+Lemma gather_map {A B} (f : A -> B) (l : list A) idx :
+  gather (map f l) idx = match gather l idx with Ok r => Ok (map f r) | Raise e => Raise e end.
+Proof.
+  induction idx as [|i t IH]; cbn [gather]; [reflexivity|].
+  rewrite IH. destruct (nth_error l i) as [a|] eqn:E.
+  - rewrite (map_nth_error f _ _ E). destruct (gather l t); reflexivity.
+  - assert (nth_error (map f l) i = None) as ->.
+    { apply nth_error_None. rewrite map_length. apply nth_error_None. exact E. }
+    reflexivity.
+Qed.
+Lemma gather_spec {A} (l : list A) d : forall idx r,
+  gather l idx = Ok r -> r = map (fun k => nth k l d) idx /\ Forall (fun k => (k < length l)%nat) idx.
+Proof.
+  induction idx as [|i t IH]; cbn [gather]; intros r H.
+  - injection H as <-. split; [reflexivity|constructor].
+  - destruct (nth_error l i) as [a|] eqn:E; [|discriminate].
+    destruct (gather l t) as [r'|e]; [|discriminate]. injection H as <-.
+    destruct (IH r' eq_refl) as [-> HF]. split.
+    + cbn [map]. f_equal. symmetry. apply nth_error_nth. exact E.
+    + constructor; [|exact HF]. apply nth_error_Some. congruence.
+Qed.
+Lemma gather_total {A} (l : list A) idx :
+  Forall (fun k => (k < length l)%nat) idx -> exists r, gather l idx = Ok r.
+Proof.
+  induction 1 as [|i t Hi HF [r Hr]]; [exists []; reflexivity|].
+  cbn [gather]. destruct (nth_error l i) as [a|] eqn:E.
+  - rewrite Hr. eexists; reflexivity.
+  - apply nth_error_None in E. lia.
+Qed.
+Lemma gather_in {A} (l : list A) idx r : gather l idx = Ok r -> forall b, In b r -> In b l.
+Proof.
+  revert r. induction idx as [|i t IH]; cbn [gather]; intros r H b Hb.
+  - injection H as <-. destruct Hb.
+  - destruct (nth_error l i) as [a|] eqn:E; [|discriminate].
+    destruct (gather l t) as [r'|e]; [|discriminate]. injection H as <-.
+    destruct Hb as [<-|Hb]; [eapply nth_error_In; eauto | eapply IH; eauto].
+Qed.
+Lemma gather_ne {A} (l : list A) idx r : gather l idx = Ok r -> idx <> [] -> r <> [].
+Proof.
+  destruct idx as [|i t]; [congruence|]. cbn [gather]. intros H _.
+  destruct (nth_error l i); [|discriminate]. destruct (gather l t); [|discriminate]. injection H as <-. discriminate.
+Qed.
+
+(* relocated_with: no sub-border => unchanged; otherwise the rule with the border grid[sbs] *)
+Lemma relocated_with_R sbs (grid target : list Rpt) out :
+  @relocated_with ROps sbs grid target = Ok out ->
+  (sbs = [] /\ out = target) \/
+  (sbs <> [] /\ exists border, gather grid sbs = Ok border /\ border <> [] /\
+                border = map (fun k => nth k grid (0, 0)) sbs /\ out = map (reloc1 border) target).
+Proof.
+  unfold relocated_with. destruct sbs as [|k t]; intros H.
+  - left. injection H as <-. auto.
+  - right. split; [discriminate|]. set (sbs := k :: t) in *. unfold pt in H. cbn [T ROps] in H.
+    destruct (gather grid sbs) as [border|e] eqn:G; [|discriminate].
+    assert (Hne : border <> []) by (eapply gather_ne; [exact G | unfold sbs; discriminate]).
+    rewrite relocation_total in H by exact Hne. injection H as <-.
+    exists border. split; [reflexivity|]. split; [exact Hne|]. split; [|reflexivity].
+    apply (gather_spec grid (0, 0) _ _ G).
+Qed.
+
+Lemma relocated_grid_is_mesh_on_itself m ss (grid : list Rpt) :
+  @relocated_grid_from ROps m ss grid = @relocated_mesh_grid_from ROps m ss grid grid.
+Proof. reflexivity. Qed.
+
+Lemma mesh_uses_data_border m ss (grid mesh out : list Rpt) :
+  @relocated_mesh_grid_from ROps m ss grid mesh = Ok out ->
+  exists sbs, @sub_border_pixel_slim_indexes_from ROps m ss = Ok sbs /\
+   ((sbs = [] /\ out = mesh) \/
+    (sbs <> [] /\ exists border, gather grid sbs = Ok border /\ border <> [] /\
+                  border = map (fun k => nth k grid (0, 0)) sbs /\ out = map (reloc1 border) mesh)).
+Proof.
+  unfold relocated_mesh_grid_from.
+  destruct (@sub_border_pixel_slim_indexes_from ROps m ss) as [sbs|e]; [|discriminate].
+  intros H. exists sbs. split; [reflexivity|]. apply relocated_with_R. exact H.
+Qed.
+
+(* mapper_grids_from: data grid relocated against its own border points; the mesh against the border
+   points of the DATA grid (the relocated data grid has the same border points: they are fixed) *)
+Lemma mapper_uses_data_border m ss (data mesh d' v' : list Rpt) :
+  @mapper_grids_from ROps (Some (m, ss)) data mesh = Ok (d', v') ->
+  exists sbs, @sub_border_pixel_slim_indexes_from ROps m ss = Ok sbs /\
+   ((sbs = [] /\ d' = data /\ v' = mesh) \/
+    (sbs <> [] /\ exists border, gather data sbs = Ok border /\ border <> [] /\
+                  border = map (fun k => nth k data (0, 0)) sbs /\
+                  d' = map (reloc1 border) data /\ v' = map (reloc1 border) mesh)).
+Proof.
+  unfold mapper_grids_from.
+  destruct (@relocated_grid_from ROps m ss data) as [d1|e] eqn:E1; [|discriminate].
+  destruct (@relocated_mesh_grid_from ROps m ss d1 mesh) as [v1|e] eqn:E2; [|discriminate].
+  intros H. injection H as <- <-.
+  rewrite relocated_grid_is_mesh_on_itself in E1.
+  destruct (mesh_uses_data_border _ _ _ _ _ E1) as (sbs & Hs & H1).
+  destruct (mesh_uses_data_border _ _ _ _ _ E2) as (sbs' & Hs' & H2).
+  rewrite Hs in Hs'. injection Hs' as <-. exists sbs. split; [exact Hs|].
+  destruct H1 as [(-> & ->)|(Hne & border & G & Hbne & Hb & ->)].
+  - left. destruct H2 as [(_ & ->)|(Hne & _)]; [auto|congruence].
+  - right. split; [exact Hne|]. exists border. split; [exact G|]. split; [exact Hbne|]. split; [exact Hb|].
+    split; [reflexivity|].
+    destruct H2 as [(-> & _)|(_ & border' & G' & _ & _ & ->)]; [congruence|].
+    rewrite gather_map, G in G'. injection G' as <-.
+    rewrite (map_ext_in (reloc1 border) (fun p => p)), map_id; [reflexivity|].
+    intros p Hp. apply border_point_fixed; assumption.
+Qed.
+Lemma mapper_without_relocator (data mesh : list Rpt) :
+  @mapper_grids_from ROps None data mesh = Ok (data, mesh).
+Proof. reflexivity. Qed.
+
+(* ================================================================= Part 3: the farthest sub-pixel *)
+(* squared distance of grid point k from the coordinate, as the code writes it *)
+Definition d2c (g : list Rpt) (cc : Rpt) (k : nat) : R :=
+  (snd (nth k g (0, 0)) - snd cc) * (snd (nth k g (0, 0)) - snd cc) +
+  (fst (nth k g (0, 0)) - fst cc) * (fst (nth k g (0, 0)) - fst cc).
+Lemma d2c_nonneg g cc k : 0 <= d2c g cc k.
+Proof. unfold d2c. apply Rplus_le_le_0_compat; apply Rle_0_sqr. Qed.
+Lemma d2c_dist g cc k : dist (nth k g (0, 0)) cc = sqrt (d2c g cc k).
+Proof. unfold dist, d2c. f_equal. ring. Qed.
+
+Lemma furthest_step_R g cc (st : R * option nat) k :
+  @furthest_step ROps g cc st k = if Rleb (fst st) (d2c g cc k) then (d2c g cc k, Some k) else st.
+Proof. reflexivity. Qed.
+
+Lemma furthest_fold g cc : forall idx (st : R * option nat),
+  (fold_left (@furthest_step ROps g cc) idx st = st /\ forall k, In k idx -> d2c g cc k < fst st) \/
+  (exists l1 k l2, idx = l1 ++ k :: l2 /\
+      fold_left (@furthest_step ROps g cc) idx st = (d2c g cc k, Some k) /\ fst st <= d2c g cc k /\
+      (forall k', In k' l1 -> d2c g cc k' <= d2c g cc k) /\ (forall k', In k' l2 -> d2c g cc k' < d2c g cc k)).
+Proof.
+  induction idx as [|a t IH]; intros st.
+  - left. split; [reflexivity|]. intros k [].
+  - cbn [fold_left]. rewrite furthest_step_R. destruct (Rleb (fst st) (d2c g cc a)) eqn:E; rbool.
+    + right. destruct (IH (d2c g cc a, Some a)) as [[Hr Hall]|(l1 & k & l2 & Ht & Hr & Hge & H1 & H2)].
+      * exists [], a, t. cbn [fst] in *. split; [reflexivity|]. split; [exact Hr|]. split; [exact E|].
+        split; [intros k' []|exact Hall].
+      * exists (a :: l1), k, l2. cbn [fst] in *. split; [rewrite Ht; reflexivity|]. split; [exact Hr|].
+        split; [lra|]. split; [|exact H2]. intros k' [<-|Hk']; [lra|auto].
+    + destruct (IH st) as [[Hr Hall]|(l1 & k & l2 & Ht & Hr & Hge & H1 & H2)].
+      * left. split; [exact Hr|]. intros k [<-|Hk]; [lra|auto].
+      * right. exists (a :: l1), k, l2. split; [rewrite Ht; reflexivity|]. split; [exact Hr|].
+        split; [lra|]. split; [|exact H2]. intros k' [<-|Hk']; [lra|auto].
+Qed.
+
+(* the returned index is the LAST maximiser of the distance among the given indexes *)
+Lemma furthest_spec g idx cc k :
+  @furthest_grid_2d_slim_index_from ROps g idx cc = Some k ->
+  exists l1 l2, idx = l1 ++ k :: l2 /\
+    (forall k', In k' l1 -> dist (nth k' g (0, 0)) cc <= dist (nth k g (0, 0)) cc) /\
+    (forall k', In k' l2 -> dist (nth k' g (0, 0)) cc < dist (nth k g (0, 0)) cc).
+Proof.
+  unfold furthest_grid_2d_slim_index_from.
+  destruct (furthest_fold g cc idx (@zero ROps, None)) as [[Hr _]|(l1 & k0 & l2 & Ht & Hr & _ & H1 & H2)];
+    rewrite Hr; cbn [snd]; intros H; [discriminate|]. injection H as <-.
+  exists l1, l2. split; [exact Ht|]. split; intros k' Hk'; rewrite !d2c_dist.
+  - apply sqrt_le_1_alt. auto.
+  - apply sqrt_lt_1_alt. split; [apply d2c_nonneg | auto].
+Qed.
+Lemma furthest_in_and_max g idx cc k :
+  @furthest_grid_2d_slim_index_from ROps g idx cc = Some k ->
+  In k idx /\ forall k', In k' idx -> dist (nth k' g (0, 0)) cc <= dist (nth k g (0, 0)) cc.
+Proof.
+  intros H. destruct (furthest_spec _ _ _ _ H) as (l1 & l2 & -> & H1 & H2). split.
+  - apply in_or_app. right. left. reflexivity.
+  - intros k' Hk'. apply in_app_or in Hk'. destruct Hk' as [Hk'|[<-|Hk']]; [auto|lra|]. left. auto.
+Qed.
+(* the loop variable stays unbound exactly for an empty index list *)
+Lemma furthest_none_iff g idx cc : @furthest_grid_2d_slim_index_from ROps g idx cc = None <-> idx = [].
+Proof.
+  unfold furthest_grid_2d_slim_index_from. split.
+  - destruct (furthest_fold g cc idx (@zero ROps, None)) as [[Hr Hall]|(l1 & k0 & l2 & Ht & Hr & _)];
+      rewrite Hr; cbn [snd]; intros H; [|discriminate].
+    destruct idx as [|a t]; [reflexivity|]. specialize (Hall a (or_introl eq_refl)).
+    pose proof (d2c_nonneg g cc a). change (fst (@zero ROps, @None nat)) with 0 in Hall. lra.
+  - intros ->. reflexivity.
+Qed.
+
+(* grid_2d_centre_from: the centre of the bounding box *)
+Definition is_max (l : list R) (v : R) : Prop := In v l /\ forall x, In x l -> x <= v.
+Definition is_min (l : list R) (v : R) : Prop := In v l /\ forall x, In x l -> v <= x.
+Definition bbox_centre_of (g : list Rpt) (cc : Rpt) : Prop :=
+  exists ymax ymin xmax xmin,
+    is_max (map fst g) ymax /\ is_min (map fst g) ymin /\ is_max (map snd g) xmax /\ is_min (map snd g) xmin /\
+    cc = ((ymax + ymin) / 2, (xmax + xmin) / 2).
+Lemma max_list_is_max (h : R) t : is_max (h :: t) (@max_list ROps h t).
+Proof.
+  destruct (max_list_spec t h) as (H1 & H2 & H3). split; [exact H3|]. intros x [<-|Hx]; auto.
+Qed.
+Lemma min_list_is_min (h : R) t : is_min (h :: t) (@min_list ROps h t).
+Proof.
+  destruct (min_list_spec t h) as (H1 & H2 & H3). split; [exact H3|]. intros x [<-|Hx]; auto.
+Qed.
+Lemma centre_spec (g : list Rpt) cc : @grid_2d_centre_from ROps g = Ok cc -> bbox_centre_of g cc.
+Proof.
+  destruct g as [|p t]; [discriminate|]. unfold grid_2d_centre_from. intros H. injection H as <-.
+  exists (@max_list ROps (fst p) (map fst t)), (@min_list ROps (fst p) (map fst t)),
+         (@max_list ROps (snd p) (map snd t)), (@min_list ROps (snd p) (map snd t)).
+  cbn [map]. split; [apply max_list_is_max|]. split; [apply min_list_is_min|].
+  split; [apply max_list_is_max|]. split; [apply min_list_is_min|]. reflexivity.
+Qed.
+Lemma centre_total (g : list Rpt) : g <> [] -> exists cc, @grid_2d_centre_from ROps g = Ok cc.
+Proof. destruct g; [congruence|]. intros _. eexists. reflexivity. Qed.
+
+Lemma all_some_spec {A} (l : list (option A)) : forall out,
+  all_some l = Ok out -> Forall2 (fun o k => o = Some k) l out.
+Proof.
+  induction l as [|[a|] t IH]; cbn [all_some]; intros out H.
+  - injection H as <-. constructor.
+  - destruct (all_some t) as [r|e]; [|discriminate]. injection H as <-. constructor; auto.
+  - discriminate.
+Qed.
+Lemma Forall2_map_l {A B C} (f : A -> B) (P : B -> C -> Prop) l l' :
+  Forall2 P (map f l) l' <-> Forall2 (fun a c => P (f a) c) l l'.
+Proof.
+  revert l'. induction l as [|a t IH]; intros l'; cbn [map]; split; intros H; inversion H; subst; constructor; auto;
+    apply IH; assumption.
+Qed.
+
+Lemma Forall2_imp {A B} (P Q : A -> B -> Prop) l l' :
+  (forall a b, P a b -> Q a b) -> Forall2 P l l' -> Forall2 Q l l'.
+Proof. intros H. induction 1; constructor; auto. Qed.
+
+(* the pixel-unit block of sub-pixel indexes of slim pixel [i] *)
+Definition block (m : mask) (ss : list nat) (i : nat) : list nat := nth i (sub_slim_indexes_for_slim_index m ss) [].
+
+Lemma sub_border_is_farthest_subpixel m ss out :
+  @sub_border_pixel_slim_indexes_from ROps m ss = Ok out ->
+  exists cc, bbox_centre_of (@unit_grid ROps m ss) cc /\
+    Forall2 (fun bp k =>
+       exists l1 l2, block m ss bp = l1 ++ k :: l2 /\
+         (forall k', In k' l1 -> dist (nth k' (@unit_grid ROps m ss) (0, 0)) cc <= dist (nth k (@unit_grid ROps m ss) (0, 0)) cc) /\
+         (forall k', In k' l2 -> dist (nth k' (@unit_grid ROps m ss) (0, 0)) cc < dist (nth k (@unit_grid ROps m ss) (0, 0)) cc))
+      (border_slim_indexes_from m) out.
+Proof.
+  unfold sub_border_pixel_slim_indexes_from.
+  destruct (@grid_2d_centre_from ROps (@unit_grid ROps m ss)) as [cc|e] eqn:Ec; [|discriminate].
+  intros H. exists cc. split; [apply centre_spec; exact Ec|].
+  apply all_some_spec in H. apply Forall2_map_l in H.
+  eapply Forall2_imp; [|exact H]. intros bp k Hk. apply furthest_spec. exact Hk.
+Qed.
+Lemma sub_border_in_block_and_farthest m ss out :
+  @sub_border_pixel_slim_indexes_from ROps m ss = Ok out ->
+  exists cc, bbox_centre_of (@unit_grid ROps m ss) cc /\
+    Forall2 (fun bp k => In k (block m ss bp) /\
+       forall k', In k' (block m ss bp) ->
+         dist (nth k' (@unit_grid ROps m ss) (0, 0)) cc <= dist (nth k (@unit_grid ROps m ss) (0, 0)) cc)
+      (border_slim_indexes_from m) out.
+Proof.
+  unfold sub_border_pixel_slim_indexes_from.
+  destruct (@grid_2d_centre_from ROps (@unit_grid ROps m ss)) as [cc|e] eqn:Ec; [|discriminate].
+  intros H. exists cc. split; [apply centre_spec; exact Ec|].
+  apply all_some_spec in H. apply Forall2_map_l in H.
+  eapply Forall2_imp; [|exact H]. intros bp k Hk. apply furthest_in_and_max. exact Hk.
+Qed.
+
+(* ================================================================= non-vacuity witnesses *)
+Definition border4 : list Rpt := [(1, 0); (-1, 0); (0, 1); (0, -1)].
+Lemma border4_centroid : centroid border4 = (0, 0).
+Proof. unfold centroid, border4. cbn [map fst snd sumR length INR]. f_equal; field. Qed.
+Lemma border4_radius b : In b border4 -> dist b (centroid border4) = 1.
+Proof.
+  rewrite border4_centroid. unfold border4, dist.
+  intros [<-|[<-|[<-|[<-|[]]]]]; cbn [fst snd];
+    match goal with |- sqrt ?x = 1 => replace x with (1 * 1) by ring end; apply sqrt_square; lra.
+Qed.
+Lemma border4_ne : border4 <> [].
+Proof. discriminate. Qed.
+Lemma border4_bmin : border_min_radius border4 = 1.
+Proof. destruct (bmin_spec border4 border4_ne) as (_ & b & Hb & ->). apply border4_radius. exact Hb. Qed.
+Lemma dist_30 : dist (3, 0) (centroid border4) = 3.
+Proof.
+  rewrite border4_centroid. unfold dist. cbn [fst snd].
+  replace ((3 - 0) * (3 - 0) + (0 - 0) * (0 - 0)) with (3 * 3) by ring. apply sqrt_square. lra.
+Qed.
+(* an outlier at radius 3 is brought to radius 1 (so it is really moved), an interior point is kept *)
+Lemma example_outlier :
+  border4 <> [] /\ border_min_radius border4 < dist (3, 0) (centroid border4) /\
+  dist (3, 0) (centroid border4) = 3 /\ dist (reloc1 border4 (3, 0)) (centroid border4) = 1.
+Proof.
+  split; [exact border4_ne|]. rewrite border4_bmin, dist_30. split; [lra|]. split; [reflexivity|].
+  assert (Hout : border_min_radius border4 < dist (3, 0) (centroid border4)) by (rewrite border4_bmin, dist_30; lra).
+  destruct (moved_to_nearest_border_radius border4 border4_ne (3, 0) Hout) as ((Hin & _) & _ & Hmove & _).
+  pose proof (border4_radius _ Hin) as Hr. rewrite Hmove; [exact Hr|]. rewrite Hr, dist_30. lra.
+Qed.
+Lemma example_interior :
+  (forall b, In b border4 -> dist (1 / 2, 0) (centroid border4) <= dist b (centroid border4)) /\
+  reloc1 border4 (1 / 2, 0) = (1 / 2, 0).
+Proof.
+  assert (H : forall b, In b border4 -> dist (1 / 2, 0) (centroid border4) <= dist b (centroid border4)).
+  { intros b Hb. rewrite (border4_radius b Hb), border4_centroid. unfold dist. cbn [fst snd].
+    replace ((1 / 2 - 0) * (1 / 2 - 0) + (0 - 0) * (0 - 0)) with ((1 / 2) * (1 / 2)) by field.
+    rewrite sqrt_square; lra. }
+  split; [exact H|]. apply interior_untouched; [exact border4_ne | exact H].
+Qed.
+(* a point whose unique nearest border point is (1,0) *)
+Lemma example_gather : gather [(3, 0); (1, 0); (0, 1)] [1%nat; 2%nat] = Ok [(1, 0); (0, 1)].
+Proof. reflexivity. Qed.
+
+(* the one-pixel mask with sub-size 1: the only sub-pixel is selected *)
+Lemma example_sub_border : @sub_border_pixel_slim_indexes_from ROps [[false]] [1%nat] = Ok [0%nat].
+Proof.
+  unfold sub_border_pixel_slim_indexes_from.
+  change (border_slim_indexes_from [[false]]) with [0%nat].
+  change (sub_slim_indexes_for_slim_index [[false]] [1%nat]) with [[0%nat]].
+  assert (Hg : exists p, @unit_grid ROps [[false]] [1%nat] = [p]) by (eexists; reflexivity).
+  destruct Hg as [p Hg]. rewrite Hg.
+  cbn [grid_2d_centre_from map nth all_some]. unfold furthest_grid_2d_slim_index_from. cbn [fold_left].
+  rewrite furthest_step_R. cbn [fst].
+  match goal with |- context [Rleb ?a ?b] => destruct (Rleb a b) eqn:E end; rbool; [reflexivity|].
+  exfalso. match type of E with d2c ?g ?c ?k < _ => pose proof (d2c_nonneg g c k) end.
+  change (@zero ROps) with 0 in E. lra.
+Qed.
